@@ -232,9 +232,10 @@ Record mucstate := mkmuc {
   mu_joinbuf : option nat;     (* channel.join, capacity 1: the joinCtx of call j, if any *)
   mu_h : mhpc;
   mu_user : nat;               (* HandleUserPresence invocations *)
-  mu_lost : nat }.             (* depart notifications that found no receiver *)
+  mu_lost : nat;               (* depart notifications that found no receiver *)
+  mu_gone : bool }.            (* the room's entry was deleted (unavailable presence handled) *)
 
-Definition muc_init : mucstate := mkmuc [] None MHIdle 0 0.
+Definition muc_init : mucstate := mkmuc [] None MHIdle 0 0 false.
 
 Inductive muclabel :=
 | MStartJoin            (* JoinPresence: joinCtx put into the buffer, goroutine started *)
@@ -257,9 +258,9 @@ Definition is_mret (p : mpc) : bool := match p with MRet _ => true | _ => false 
 Definition set_mpc (c : mcall) (p : mpc) : mcall := mkmcall (m_kind c) (m_canc c) p (m_err c).
 
 Definition muc_set_calls (s : mucstate) (l : list mcall) : mucstate :=
-  mkmuc l (mu_joinbuf s) (mu_h s) (mu_user s) (mu_lost s).
+  mkmuc l (mu_joinbuf s) (mu_h s) (mu_user s) (mu_lost s) (mu_gone s).
 Definition muc_set_h (s : mucstate) (h : mhpc) : mucstate :=
-  mkmuc (mu_calls s) (mu_joinbuf s) h (mu_user s) (mu_lost s).
+  mkmuc (mu_calls s) (mu_joinbuf s) h (mu_user s) (mu_lost s) (mu_gone s).
 
 Definition mcall_step (s : mucstate) (i : nat) (f : mcall -> option mcall) : option mucstate :=
   match nth_error (mu_calls s) i with
@@ -281,7 +282,7 @@ Definition muc_step (s : mucstate) (l : muclabel) : option mucstate :=
   match l with
   | MStartJoin =>
       match mu_calls s, mu_joinbuf s with
-      | [], None => Some (mkmuc [mkmcall MJoin false MSpawned false] (Some 0) (mu_h s) (mu_user s) (mu_lost s))
+      | [], None => Some (mkmuc [mkmcall MJoin false MSpawned false] (Some 0) (mu_h s) (mu_user s) (mu_lost s) (mu_gone s))
       | _, _ => None           (* one join attempt per channel in this model *)
       end
   | MStartLeave =>
@@ -302,13 +303,18 @@ Definition muc_step (s : mucstate) (l : muclabel) : option mucstate :=
                                            | MWait => if m_err x then Some (set_mpc x (MRet MErr)) else None
                                            | _ => None
                                            end)
-  | MAvailArrive => match mu_h s with MHIdle => Some (muc_set_h s MHAvail) | _ => None end
+  | MAvailArrive =>
+      (* presences of a room that is not (or no longer) managed are ignored *)
+      match mu_h s, mu_calls s with
+      | MHIdle, _ :: _ => if mu_gone s then None else Some (muc_set_h s MHAvail)
+      | _, _ => None
+      end
   | MTake =>
       match mu_h s with
       | MHAvail =>
           match mu_joinbuf s with
-          | Some j => Some (mkmuc (mu_calls s) None (MHTaken j) (mu_user s) (mu_lost s))
-          | None => Some (mkmuc (mu_calls s) None MHIdle (S (mu_user s)) (mu_lost s))
+          | Some j => Some (mkmuc (mu_calls s) None (MHTaken j) (mu_user s) (mu_lost s) (mu_gone s))
+          | None => Some (mkmuc (mu_calls s) None MHIdle (S (mu_user s)) (mu_lost s) (mu_gone s))
           end
       | _ => None
       end
@@ -319,7 +325,7 @@ Definition muc_step (s : mucstate) (l : muclabel) : option mucstate :=
             match nth_error (mu_calls s) j with
             | Some x => match m_pc x with
                         | MWait => Some (mkmuc (upd (mu_calls s) j (set_mpc x (MRet MJoined)))
-                                               (mu_joinbuf s) MHIdle (mu_user s) (mu_lost s))
+                                               (mu_joinbuf s) MHIdle (mu_user s) (mu_lost s) (mu_gone s))
                         | _ => None
                         end
             | None => None
@@ -336,14 +342,20 @@ Definition muc_step (s : mucstate) (l : muclabel) : option mucstate :=
           end
       | _ => None
       end
-  | MUnavailArrive => match mu_h s with MHIdle => Some (muc_set_h s MHUnavail) | _ => None end
+  | MUnavailArrive =>
+      match mu_h s, mu_calls s with
+      | MHIdle, _ :: _ =>
+          if mu_gone s then None
+          else Some (mkmuc (mu_calls s) (mu_joinbuf s) MHUnavail (mu_user s) (mu_lost s) true)
+      | _, _ => None
+      end
   | MDepartTo l =>
       match mu_h s with
       | MHUnavail =>
           match nth_error (mu_calls s) l with
           | Some x => if waiting_leave x
                       then Some (mkmuc (upd (mu_calls s) l (set_mpc x (MRet MLeft)))
-                                       (mu_joinbuf s) MHIdle (mu_user s) (mu_lost s))
+                                       (mu_joinbuf s) MHIdle (mu_user s) (mu_lost s) (mu_gone s))
                       else None
           | None => None
           end
@@ -353,7 +365,7 @@ Definition muc_step (s : mucstate) (l : muclabel) : option mucstate :=
       match mu_h s with
       | MHUnavail =>
           if existsb waiting_leave (mu_calls s) then None
-          else Some (mkmuc (mu_calls s) (mu_joinbuf s) MHIdle (mu_user s) (S (mu_lost s)))
+          else Some (mkmuc (mu_calls s) (mu_joinbuf s) MHIdle (mu_user s) (S (mu_lost s)) (mu_gone s))
       | _ => None
       end
   end.
